@@ -34,6 +34,10 @@ inductive RingSt where
   | noaccess                    -- every credential call → Error::NoStorageAccess
   | platfail                    -- every credential call → Error::PlatformFailure
   | nostore                     -- no default store set: Entry::new → Error::NoDefaultStore
+  | rdfail (k : Key) (notInit : Bool)
+      -- a 32-byte entry k is stored but the store cannot hand it out: get_secret fails (BadDataFormat / BadEncoding /
+      -- Ambiguous / PlatformFailure → Error::Keyring; NoStorageAccess → KeyringNotInitialized when `notInit`), while
+      -- set_secret and delete_credential still succeed (a locked or corrupted entry; writing replaces it)
   deriving DecidableEq, Repr
 
 inductive Ctor where
@@ -103,6 +107,7 @@ def getDbKey : RingSt → Except ErrKind (Option Key)
   | .bad => .error .keyring                     -- from_slice fails → Error::Keyring("…invalid length…")
   | .noaccess => .error .keyringNotInitialized  -- KeyringError::NoStorageAccess
   | .platfail => .error .keyring
+  | .rdfail _ ni => .error (if ni then .keyringNotInitialized else .keyring)   -- every read error is an error, never "no key"
 
 /-- `get_or_create_db_key`; `fresh` is what `EncryptionConfig::generate()` returns -/
 def getOrCreate (w : World) (fresh : Key) : World × Except ErrKind Key :=
@@ -125,6 +130,7 @@ def deleteDbKey (w : World) : World × Except ErrKind Unit :=
   | .bad => ({ w with ring := .none }, .ok ())
   | .noaccess => (w, .error .keyringNotInitialized)
   | .platfail => (w, .error .keyring)
+  | .rdfail _ _ => ({ w with ring := .none }, .ok ())
 
 /-! ### encryption.rs -/
 
